@@ -714,6 +714,10 @@ pub fn c06(ctx: &mut Ctx) -> R {
                 Terminal::Error("RecvResponse", _) => {
                     ctx.count("p:bad_content_length_rejected");
                 }
+                Terminal::Stuck("RecvResponse") if hs > 0 && obs.responses.len() < 2 => {
+                    // polling past the delivered interim head was refused: the bad head was never looked at
+                    ctx.count("p:interim_poll_refused");
+                }
                 other => fail!("C06.bad_length_accepted", "", "Content-Length {:?} is not a number but the head was accepted (ended in {} via {})", spec.cl, other.name(), obs.state_path()),
             }
             return Ok(());
